@@ -289,7 +289,7 @@ pub fn record(rec: &mut Recorder, seed: u64, thorough: bool) {
     api_campaign::<u8>(rec, &mut r, thorough);
     // second sentence of C07: padding cells of real score tables (sequences from striping and from
     // StripedSequence::sample) are -inf when the wildcard column is, so max() is the best valid score
-    for l in [0usize, 1, 5, 31, 32, 33, 40, 64, 70, 100, 130, 300, 700, 929, 961] {
+    for l in [0usize, 1, 5, 31, 32, 33, 40, 45, 63, 64, 70, 77, 96, 97, 100, 127, 130, 300, 700, 929, 961] {
         for from_sample in [false, true] {
             crate::c01::sampled::<lightmotif::abc::Dna>(rec, &mut r, l, from_sample);
             crate::c01::sampled::<lightmotif::abc::Protein>(rec, &mut r, l, from_sample);
